@@ -33,6 +33,7 @@ Record op_facts (d : definition) (rtl : bool) (my p : N) : Prop := mkOF {
   of_prio : priority d = Some my;
   of_rank : ref_rank d = Some p;
   of_atom : walk_stop my 10 rtl = false;
+  of_group : walk_stop my 20 rtl = false;
   of_inf : (p < INF)%N;
   of_cmp : forall d', frameable d' = true -> cmp_ok d my rtl d' = true
 }.
@@ -42,33 +43,33 @@ Proof. intros BF. constructor; apply BF. Qed.
 
 Lemma compat_of_op d rtl my p fs : op_facts d rtl my p -> frames_ok fs -> compat d my rtl fs.
 Proof.
-  intros OF FO f Hf. pose proof (of_cmp _ _ _ _ OF _ (FO f Hf)) as C. unfold cmp_ok in C.
+  intros OF FO f Hf Hg. pose proof (of_cmp _ _ _ _ OF _ (FO f Hf Hg)) as C. unfold cmp_ok in C.
+  destruct (frame_def_facts _ (FO f Hf Hg)) as (their0 & q0 & _ & _ & _ & _ & Hgl).
   destruct (priority (frame_def f)) as [their|]; [|discriminate].
   destruct (ref_rank (frame_def f)) as [q|] eqn:Eq; [|discriminate].
-  exists their. split; [reflexivity|]. unfold stays_below. rewrite Eq. apply eqb_prop. exact C.
+  exists their. split; [reflexivity|]. split; [|exact Hgl].
+  destruct f; try discriminate Hg; unfold stays_below; simpl in Eq |- *; rewrite Eq; apply eqb_prop; exact C.
 Qed.
-
-Lemma has_id_hi t : has_id t (hi t).
-Proof. induction t; simpl; auto. Qed.
 
 (* S1: an operator after a completed operand; [parse_token] closes the frames [pop] closes *)
 Lemma operator_on_complete ns fs t d rtl my p fs' t' :
   cstruct ns fs t -> op_facts d rtl my p -> pop d fs t = (fs', t') ->
   exists ns',
-    parse_token (length ns) d (Some (nid t)) ns None rtl = Ok (ns', top_id fs', Some (nid t')) /\
+    parse_token (length ns) d (Some (nid t)) ns (first_group fs) rtl = Ok (ns', top_id fs', Some (nid t')) /\
     length ns' = length ns /\
     (* a binary / list node appended: a new frame *)
     (forall nd k, frameable d = true -> bin_shape nd d k -> n_parent nd = top_id fs' ->
                   n_left nd = Some (nid t') -> n_right nd = Some (S (length ns)) ->
                   pstruct (ns' ++ [nd]) (FBin (length ns) d k t' :: fs')) /\
     (* a suffix node appended: a completed operand again *)
-    (forall nd k, n_sec nd = S_UnarySuffix -> n_def nd = d -> n_parent nd = top_id fs' ->
+    (forall nd k, plain_def d = true -> n_sec nd = S_UnarySuffix -> n_def nd = d -> n_parent nd = top_id fs' ->
                   n_left nd = Some (nid t') -> n_right nd = None -> n_tok nd = Some k ->
                   cstruct (ns' ++ [nd]) fs' (NSuf (length ns) d k t')).
 Proof.
   intros [L Cl Cov Bot FO] OF Hpop.
   destruct (parse_token_linked ns fs t d my rtl fs' t' L Cl (of_prio _ _ _ _ OF) (of_se _ _ _ _ OF)
-              (of_atom _ _ _ _ OF) (compat_of_op _ _ _ _ fs OF FO) Hpop) as (ns' & Hpt & Hlen & Sp' & D' & _).
+              (of_atom _ _ _ _ OF) (of_group _ _ _ _ OF) (compat_of_op _ _ _ _ fs OF FO) Hpop)
+    as (ns' & Hpt & Hlen & Sp' & D' & _).
   exists ns'. split; [exact Hpt|]. split; [exact Hlen|].
   pose proof (pop_linked _ _ _ _ _ _ L Hpop) as L'. destruct L' as [_ D0 F' O'].
   set (len := length ns) in *.
@@ -92,8 +93,8 @@ Proof.
     + intros j Hj. simpl. destruct (Nat.eq_dec j len) as [->|Hne]; [left; left; reflexivity|].
       destruct (CovA j ltac:(lia)) as [H|H]; [right; exact H|left; right; exact H].
     + simpl. rewrite (pop_bottom _ _ _ _ _ Hpop). exact Bot.
-    + intros f [<-|Hf]; [exact Hfr|]. eapply pop_frames_ok; eauto.
-  - intros nd k Hsec Hdef Hpar Hleft Hright Htok.
+    + intros f [<-|Hf] Hg; [exact Hfr|]. eapply pop_frames_ok; eauto.
+  - intros nd k Hplain Hsec Hdef Hpar Hleft Hright Htok.
     constructor.
     + constructor; cbn [nid lo].
       * apply SpA.
@@ -102,7 +103,7 @@ Proof.
         split; [exact Hright|]. split; [exact Htok|]. apply DA.
       * exact F'.
       * simpl. split; [exact Hhi|exact O'].
-    + simpl. split; [exists my; exact (of_prio _ _ _ _ OF)|exact (of_se _ _ _ _ OF)].
+    + simpl. split; [exists my; exact (of_prio _ _ _ _ OF)|exact Hplain].
     + intros j Hj. rewrite app_length, Hlen in Hj. simpl in Hj.
       destruct (Nat.eq_dec j len) as [->|Hne]; [right; left; reflexivity|].
       destruct (CovA j ltac:(lia)) as [H|H]; [left; exact H|right; right; exact H].
@@ -142,7 +143,64 @@ Proof.
   - simpl. split; [lia|]. split; [exact I|exact F].
   - intros j Hj. simpl. destruct (Nat.eq_dec j (length ns)) as [->|Hne]; [left; reflexivity|right; apply Cov; lia].
   - simpl. exact Bot.
-  - intros f [<-|Hf]; [exact Hfr|apply FO; exact Hf].
+  - intros f [<-|Hf] Hg; [exact Hfr|apply FO; assumption].
+Qed.
+
+(* S4: an opening bracket where an operand is expected *)
+Lemma open_on_pending ns fs nd k :
+  pstruct ns fs ->
+  n_sec nd = S_StartGrouping -> n_def nd = D_Group -> n_parent nd = top_id fs -> n_left nd = None ->
+  n_right nd = Some (S (length ns)) -> n_tok nd = Some k ->
+  pstruct (ns ++ [nd]) (FGroup (length ns) k :: fs).
+Proof.
+  intros [Sp F Cov Bot FO] Hsec Hdef Hpar Hleft Hright Htok.
+  constructor; rewrite ?app_length; cbn [length]; replace (length ns + 1) with (S (length ns)) by lia.
+  - simpl. split.
+    + exists nd. split; [apply nth_error_app_new|]. tauto.
+    + eapply spine_ext; [|exact Sp]. intros j Hj. apply nth_error_app_old. eapply frames_have_lt; eauto.
+  - simpl. split; [lia|]. split; [exact I|exact F].
+  - intros j Hj. simpl. destruct (Nat.eq_dec j (length ns)) as [->|Hne]; [left; reflexivity|right; apply Cov; lia].
+  - simpl. exact Bot.
+  - intros f [<-|Hf] Hg; [discriminate Hg|apply FO; assumption].
+Qed.
+
+(* S5: a closing bracket after a completed operand: no node changes; the frames above the
+   innermost open bracket and the bracket itself are closed *)
+Lemma close_group_ind (Q : list frame -> ntree -> Prop) :
+  (forall f r t, Q (f :: r) t -> Q r (plug f t)) ->
+  forall fs t fs' t', Q fs t -> close_group fs t = Some (fs', t') -> Q fs' t'.
+Proof.
+  intros Hstep. induction fs as [|f r IH]; intros t fs' t' HQ H; [discriminate|].
+  destruct f as [i d k l|i d k|i k]; cbn [close_group] in H.
+  - eapply IH; [|exact H]. apply (Hstep (FBin i d k l)). exact HQ.
+  - eapply IH; [|exact H]. apply (Hstep (FPre i d k)). exact HQ.
+  - injection H as <- <-. apply (Hstep (FGroup i k)). exact HQ.
+Qed.
+
+Lemma close_group_shape : forall fs t fs' t', close_group fs t = Some (fs', t') ->
+  exists i k a, t' = NGroup i k a /\ first_group fs = Some i.
+Proof.
+  induction fs as [|f r IH]; intros t fs' t' H; [discriminate|].
+  destruct f as [i d k l|i d k|i k]; cbn [close_group first_group] in *.
+  - eapply IH; eauto.
+  - eapply IH; eauto.
+  - injection H as <- <-. exists i, k, t. split; reflexivity.
+Qed.
+
+Lemma close_on_complete ns fs t fs' t' :
+  cstruct ns fs t -> close_group fs t = Some (fs', t') -> cstruct ns fs' t'.
+Proof.
+  intros [L Cl Cov Bot FO] H. constructor.
+  - revert L H. apply (close_group_ind (linked ns)). intros f r t0. apply linked_plug.
+  - destruct (close_group_shape _ _ _ _ H) as (i & k & a & -> & _). exact I.
+  - assert (E : forall j, frames_have fs' j \/ has_id t' j <-> frames_have fs j \/ has_id t j).
+    { revert H. apply (close_group_ind (fun a b => forall j, frames_have a j \/ has_id b j <-> frames_have fs j \/ has_id t j));
+        [|tauto]. intros f r t0 H0 j. rewrite <- H0. simpl. rewrite plug_has. tauto. }
+    intros j Hj. apply E. apply Cov. exact Hj.
+  - revert H. apply (close_group_ind (fun a b => bottom_lo a (lo b) = 0)); [|exact Bot].
+    intros f r t0 H0. rewrite plug_lo. exact H0.
+  - revert H. apply (close_group_ind (fun a _ => frames_ok a)); [|exact FO].
+    intros f r _ H0 f' Hf' Hg. apply H0; [right; exact Hf'|exact Hg].
 Qed.
 
 (* closing everything: the whole array is the tree *)
